@@ -368,6 +368,7 @@ pub fn drive(eng: Box<dyn Engine>, ctx: Ctx, cfg: RunConfig) -> i32 {
         let _ = h.join();
     }
     let explore_s = start.elapsed().as_secs_f64();
+    let _ = std::fs::remove_dir_all(format!("{}/scratch/{}", ctx.target, eng.name()));
     let mut m = std::mem::take(&mut *merged.lock().unwrap());
 
     // ---- group violations by class, keep the smallest case of each
